@@ -65,6 +65,17 @@ JudgeStream(b, w) ==
                                   Tag(w.read = x.next - 1, "Inv.Total.consumed:" \o w.n)
          ELSE <<>>))
 
+(* Stream.Kind() on the first value (header rules only), then arbitrary Stream calls *)
+JudgeOps(b, o) ==
+  LET h == Hdr(b, 1, Len(b), FALSE) IN
+  Tag(~o.panic, "Inv.Total.panic:streamops") \o
+  Tag(o.read <= Len(b), "Inv.Total.reads-past-limit:streamops") \o
+  (IF o.panic THEN <<>>
+   ELSE Tag(o.first.ok = h.ok, (IF o.first.ok THEN "Inv.Canonical.accepts:" ELSE "Inv.Lossless.rejects:") \o "kind") \o
+        (IF o.first.ok /\ h.ok
+           THEN Tag(o.first.kind = h.kind /\ o.first.size = (IF h.kind = "byte" THEN 0 ELSE h.ce - h.cs + 1), "Inv.Lossless.value:kind")
+           ELSE <<>>))
+
 JudgeDecode(e) ==
   LET b == e.in
       x == Dec(b)
@@ -82,6 +93,7 @@ JudgeDecode(e) ==
        ELSE Tag(e.count.ok = (cn >= 0), IF e.count.ok THEN "Inv.Canonical.accepts:count" ELSE "Inv.Lossless.rejects:count") \o
             (IF e.count.ok /\ cn >= 0 THEN Tag(e.count.n = cn, "Inv.Lossless.value:count") ELSE <<>>)) \o
       FlatT([i \in 1..Len(e.streams) |-> JudgeStream(b, e.streams[i])]) \o
+      JudgeOps(b, e.ops) \o
       Tag(e.alloc <= AllocBase + AllocPerByte * Len(b), "Inv.Total.alloc")
 
 JudgeEncode(e) ==
